@@ -118,6 +118,11 @@ theorem C05_images_faithful_subvariant (ver : PyVal) (v : Nat × Nat) (hvt : ver
     getD_snoc_ne kvs (L "subvariant", PyVal.str []) (L "additional_variants") _ (by decide),
     hvt, cur_vt, ok_bind, (C05_images_gates v).1, hold, cur_not_old_image, hs, hg, ↓reduceIte, Bool.false_eq_true]
 
+/-- the hypotheses are satisfiable: header "1.0" (and "0.2"), a dictionary without `subvariant` -/
+example : versionTuple (.str (L "1.0")) = .ok (.nums (1, 0)) ∧ verLe (1, 0) (1, 0) = true
+    ∧ versionTuple (.str (L "0.2")) = .ok (.nums (0, 2)) ∧ verLe (0, 2) (1, 0) = true
+    ∧ ([(L "path", PyVal.str (L "a.iso"))] : List (Str × PyVal)).find? (·.1 == L "subvariant") = none := by decide +kernel
+
 /-- **faithful, 1.1 and later** (every version `v` with `¬ v ≤ (1, 0)`): the image reader does not depend on the version —
 nothing is defaulted, a document without `subvariant` is refused as by the current reader -/
 theorem C05_images_faithful_from_1_1 (ver : PyVal) (v : Nat × Nat) (hvt : versionTuple ver = .ok (.nums v))
@@ -125,6 +130,9 @@ theorem C05_images_faithful_from_1_1 (ver : PyVal) (v : Nat × Nat) (hvt : versi
     Image.deserialize ver d = Image.deserialize (.str currentVersion) d := by
   unfold Image.deserialize
   simp only [hvt, cur_vt, ok_bind, (C05_images_gates v).1, hnew, cur_not_old_image]
+
+example : versionTuple (.str (L "1.1")) = .ok (.nums (1, 1)) ∧ verLe (1, 1) (1, 0) = false
+    ∧ versionTuple (.str (L "2.0")) = .ok (.nums (2, 0)) ∧ verLe (2, 0) (1, 0) = false := by decide +kernel
 
 /-- **F11 through the legacy reader**: a 1.0 document (no subvariants) with two images of equal type/format/arch/disc
 number and different checksums is accepted, written as a current-version document, and that document is refused -/
@@ -225,6 +233,13 @@ theorem C05_rpms_faithful_witness :
        && m.compose == [(lit "id", .str (lit "F-22-20150522.t.1")), (lit "type", .str (lit "test")), (lit "date", .str (lit "20150522")),
                         (lit "respin", .int 1), (lit "label", .none), (lit "final", .bool false)]
      | .error _ => false) = true := by decide +kernel
+
+/-- the hypotheses of `C05_rpms_idempotent` hold of the witness: the document is JSON-representable and the compose section
+read from the id has the documented field types -/
+example : jsonRep wRpms02 = true
+    ∧ (match deserializeL .rpms wRpms02 with
+       | .ok m => m.compose == (ComposeT.toObj ⟨lit "F-22-20150522.t.1", lit "test", lit "20150522", 1, none, false⟩)
+       | .error _ => false) = true := by decide +kernel
 
 end Rpms
 
@@ -346,11 +361,17 @@ theorem C05_ti_gates_le_0_3 (v : Nat × Nat) (h0 : (v == (0, 0)) = false) (h3 : 
       variant := .v03, fixImages := false, fixStage2 := false, fixChecksums := false, media00 := false } :=
   TI.Legacy.selsOf_le_0_3 v h0 h3
 
+example : ((0, 1) == ((0, 0) : Nat × Nat)) = false ∧ PM.verLe (0, 1) (0, 3) = true ∧ ((0, 3) == ((0, 0) : Nat × Nat)) = false
+    ∧ PM.verLe (0, 3) (0, 3) = true := by decide
+
 /-- … every version `v > (0, 3)` (0.4 … 0.9, 1.0, 1.1, 1.2, 2.0): the current readers throughout; the header type is
 demanded exactly from 1.1 on -/
 theorem C05_ti_gates_gt_0_3 (v : Nat × Nat) (h3 : PM.verLt (0, 3) v = true) :
     TI.Legacy.selsOf v = .ok { TI.Legacy.Sels.current with headerTyped := PM.verLe (1, 1) v } :=
   TI.Legacy.selsOf_gt_0_3 v h3
+
+example : PM.verLt (0, 3) (0, 4) = true ∧ PM.verLt (0, 3) (1, 0) = true ∧ PM.verLt (0, 3) (2, 0) = true
+    ∧ PM.verLe (1, 1) (1, 0) = false ∧ PM.verLe (1, 1) (1, 1) = true := by decide
 
 /-- **loaded is normal (partial: per section)** — whatever header version the file had, or none: the object carries the
 current header version and its release, tree, variants container, checksums, images, stage2 and media objects passed
